@@ -234,8 +234,12 @@ class World:
             if not m["connected"]:
                 pass  # the session ended in a way the statement leaves open (refused connect while connected): not judged
             elif not m["dropped"]:
-                want = {"op_ok": "ok", "op_garbage": "RuntimeError", "op_badarg": "ValueError"}[a]
+                want = {"op_ok": "ok", "op_garbage": "RuntimeError", "op_badarg": "rejected"}[a]
                 got = "ok" if out[0] == "ok" else (type(out[1]).__name__ if out[0] == "exc" else out[0])
+                if a == "op_badarg" and out[0] == "exc" and isinstance(out[1], Exception):
+                    got = "rejected"
+                if a == "op_garbage" and out[0] == "exc" and isinstance(out[1], RuntimeError):
+                    got = "RuntimeError"
                 if got != want:
                     res.violation(f"operation-outcome:{a}", case, f"{tag}: expected {want}, got {got} ({out[1]!r})", want, got)
                     ok = False
